@@ -381,6 +381,15 @@ func checkC11(c *run.Ctx) {
 				for j := 0; j < k; j++ {
 					vs = append(vs, pool[r.IntN(len(pool))])
 				}
+				if r.IntN(8) == 0 {
+					// a long value list in no particular order (17-80 values)
+					vs = vs[:0]
+					for j, n := 0, 17+r.IntN(64); j < n; j++ {
+						vs = append(vs, fmt.Sprintf("v%d", (j*37+11)%101))
+					}
+					r.Shuffle(len(vs), func(a, b int) { vs[a], vs[b] = vs[b], vs[a] })
+					c.Count("dimensions_with_17_or_more_values", 1)
+				}
 				ms.Values[d] = vs
 			}
 			randTuple := func() map[string]string {
